@@ -324,7 +324,11 @@ class CentrallyBin(Factory, Container):
 
     @inheritdoc(Container)
     def zero(self):
-        return CentrallyBin([c for c, v in self.bins], self.quantity, self.value, self.nanflow.zero())
+        out = CentrallyBin([c for c, v in self.bins], self.quantity, self.value, self.nanflow.zero())
+        if self.value is None:
+            # a container built by ed / fromJson has no template: empty its own bins instead
+            out.bins = [(c, v.zero()) for c, v in self.bins]
+        return out
 
     @inheritdoc(Container)
     def __add__(self, other):
